@@ -135,6 +135,15 @@ def creation_sql(catalog: str) -> str:
     """
 
 
+def delete_table_metadata_sql(catalog: str, schema: str, table: str) -> str:
+    return f"""
+        DELETE FROM {catalog}.information_schema._fs_tables_ext
+        WHERE ext_table_catalog = '{catalog}' AND ext_table_schema = '{schema}' AND ext_table_name = '{table}';
+        DELETE FROM {catalog}.information_schema._fs_columns_ext
+        WHERE ext_table_catalog = '{catalog}' AND ext_table_schema = '{schema}' AND ext_table_name = '{table}';
+    """
+
+
 def insert_table_comment_sql(catalog: str, schema: str, table: str, comment: str) -> str:
     return f"""
         INSERT INTO {catalog}.information_schema._fs_tables_ext
